@@ -800,15 +800,21 @@ def discardChunkN (s : S) (size? : Option Nat) : S :=
 def setBdatStatus (s : S) : S :=
   if s.c.bdatStatus.isNone && s.cfg.lmtp then { s with c := { s.c with bdatStatus := some s.c.recipients } } else s
 
+def setBdat (s : S) (k : Nat) : S := { s with c := { s.c with bdat := some k } }
+
+/-- start the delivery goroutine of a chunked transfer: its record, the `Data` call, `c.bdatPipe` -/
+def startDelivery (s : S) (dec : DataDec) : S × Nat :=
+  let id := s.c.session.getD 0
+  let k := (beginData s id dec).2
+  (setBdat (emit (beginData s id dec).1 (.dataBegin id k)) k, k)
+
 /-- the first chunk of a transfer starts the delivery goroutine; later chunks find it running -/
 def bdatBegin (s : S) : S × Nat :=
   match s.c.bdat with
   | some k => (s, k)
   | none =>
     let (dec, s) := popData s
-    let (s, k) := beginData s (s.c.session.getD 0) dec
-    let s := emit s (.dataBegin (s.c.session.getD 0) k)
-    let s := { s with c := { s.c with bdat := some k } }
+    let (s, k) := startDelivery s dec
     -- a backend that wants nothing returns at once
     let s := if dec.want == some 0 then delivFinish s k .none else s
     (s, k)
@@ -871,6 +877,12 @@ def bdatChunk (s : S) (size : Nat) (last : Bool) : S × Bool :=
   let (s, left, ce) := copyChunk (wireFuel s.w) s k size (min 32768 (max size 1))
   bdatAfterCopy s k size left last ce
 
+/-- a second argument that is not `LAST` -/
+def bdatLastBad (more : List Bytes) : Bool :=
+  match more with
+  | [t] => !equalFold t "LAST".b
+  | _ => false
+
 def handleBdat (s : S) (arg : Bytes) : S × Bool :=
   match fields arg with
   | [] => (reply s 501 ⟨5, 5, 4⟩ "Missing chunk size argument", false)
@@ -880,10 +892,7 @@ def handleBdat (s : S) (arg : Bytes) : S × Bool :=
     else if !s.c.fromReceived || s.c.recipients.isEmpty then
       (discardChunkN (reply s 502 ⟨5, 5, 1⟩ "Missing RCPT TO command.") size?, false)
     else
-      let lastBad := match more with
-        | [t] => !equalFold t "LAST".b
-        | _ => false
-      if lastBad then (discardChunkN (reply s 501 ⟨5, 5, 4⟩ "Unknown BDAT argument") size?, false)
+      if bdatLastBad more then (discardChunkN (reply s 501 ⟨5, 5, 4⟩ "Unknown BDAT argument") size?, false)
       else
         let last := more.length == 1
         match size? with
@@ -895,33 +904,55 @@ def handleBdat (s : S) (arg : Bytes) : S × Bool :=
 
 /-! ### dispatch (`Conn.handle`) and the command loop (`Server.handleConn`) -/
 
+/-- `defer recover()` in `Conn.handle`: a panic in a handler is answered 421, the connection closed, the panic logged -/
+def recoverPanic (p : S × Bool) : S :=
+  if p.2 then emit (closeConn (reply p.1 421 ⟨4, 0, 0⟩ "Internal server error")) .panicLog else p.1
+
+/-- the greeting commands: the verb must fit the server's mode -/
+def dispatchGreet (s : S) (cmd arg : Bytes) : S :=
+  if s.cfg.lmtp && !(cmd == "LHLO".b) then reply s 500 ⟨5, 5, 1⟩ "This is a LMTP server, use LHLO"
+  else if !s.cfg.lmtp && cmd == "LHLO".b then reply s 500 ⟨5, 5, 1⟩ "This is not a LMTP server"
+  else recoverPanic (handleGreet s (cmd == "LHLO".b || cmd == "EHLO".b) arg)
+
+inductive Verb | unimpl | greet | mail | rcpt | vrfy | noop | rset | bdat | data | quit | auth | starttls | unknown
+deriving Repr, DecidableEq
+
+/-- which branch of the switch an (upper-cased) verb selects -/
+def verbOf (cmd : Bytes) : Verb :=
+  if cmd == "SEND".b || cmd == "SOML".b || cmd == "SAML".b || cmd == "EXPN".b || cmd == "HELP".b || cmd == "TURN".b then .unimpl
+  else if cmd == "HELO".b || cmd == "EHLO".b || cmd == "LHLO".b then .greet
+  else if cmd == "MAIL".b then .mail
+  else if cmd == "RCPT".b then .rcpt
+  else if cmd == "VRFY".b then .vrfy
+  else if cmd == "NOOP".b then .noop
+  else if cmd == "RSET".b then .rset
+  else if cmd == "BDAT".b then .bdat
+  else if cmd == "DATA".b then .data
+  else if cmd == "QUIT".b then .quit
+  else if cmd == "AUTH".b then .auth
+  else if cmd == "STARTTLS".b then .starttls
+  else .unknown
+
+/-- the switch over the (upper-cased) verb -/
+def dispatch (s : S) (cmd arg : Bytes) : S :=
+  match verbOf cmd with
+  | .unimpl => replyB s 502 ⟨5, 5, 1⟩ [cmd ++ " command not implemented".b]
+  | .greet => dispatchGreet s cmd arg
+  | .mail => recoverPanic (handleMail s arg)
+  | .rcpt => recoverPanic (handleRcpt s arg)
+  | .vrfy => reply s 252 ⟨2, 5, 0⟩ "Cannot VRFY user, but will accept message"
+  | .noop => reply s 250 ⟨2, 0, 0⟩ "I have successfully done nothing"
+  | .rset => reply (resetConn s) 250 ⟨2, 0, 0⟩ "Session reset"
+  | .bdat => recoverPanic (handleBdat s arg)
+  | .data => recoverPanic (handleData s arg)
+  | .quit => closeConn (reply s 221 ⟨2, 0, 0⟩ "Bye")
+  | .auth => recoverPanic (handleAuth s arg)
+  | .starttls => handleStartTLS s
+  | .unknown => protocolErrorB s 500 ⟨5, 5, 2⟩ ("Syntax errors, ".b ++ cmd ++ " command unrecognized".b)
+
 def handle (s : S) (cmd0 arg : Bytes) : S :=
-  let recover (p : S × Bool) : S :=
-    if p.2 then
-      emit (closeConn (reply p.1 421 ⟨4, 0, 0⟩ "Internal server error")) .panicLog
-    else p.1
   if cmd0.isEmpty then protocolError s 500 ⟨5, 5, 2⟩ "Error: bad syntax"
-  else
-    let cmd := toUpper cmd0
-    if cmd == "SEND".b || cmd == "SOML".b || cmd == "SAML".b || cmd == "EXPN".b || cmd == "HELP".b || cmd == "TURN".b then
-      replyB s 502 ⟨5, 5, 1⟩ [cmd ++ " command not implemented".b]
-    else if cmd == "HELO".b || cmd == "EHLO".b || cmd == "LHLO".b then
-      let lmtp := cmd == "LHLO".b
-      let enhanced := lmtp || cmd == "EHLO".b
-      if s.cfg.lmtp && !lmtp then reply s 500 ⟨5, 5, 1⟩ "This is a LMTP server, use LHLO"
-      else if !s.cfg.lmtp && lmtp then reply s 500 ⟨5, 5, 1⟩ "This is not a LMTP server"
-      else recover (handleGreet s enhanced arg)
-    else if cmd == "MAIL".b then recover (handleMail s arg)
-    else if cmd == "RCPT".b then recover (handleRcpt s arg)
-    else if cmd == "VRFY".b then reply s 252 ⟨2, 5, 0⟩ "Cannot VRFY user, but will accept message"
-    else if cmd == "NOOP".b then reply s 250 ⟨2, 0, 0⟩ "I have successfully done nothing"
-    else if cmd == "RSET".b then reply (resetConn s) 250 ⟨2, 0, 0⟩ "Session reset"
-    else if cmd == "BDAT".b then recover (handleBdat s arg)
-    else if cmd == "DATA".b then recover (handleData s arg)
-    else if cmd == "QUIT".b then closeConn (reply s 221 ⟨2, 0, 0⟩ "Bye")
-    else if cmd == "AUTH".b then recover (handleAuth s arg)
-    else if cmd == "STARTTLS".b then handleStartTLS s
-    else protocolErrorB s 500 ⟨5, 5, 2⟩ ("Syntax errors, ".b ++ cmd ++ " command unrecognized".b)
+  else dispatch s (toUpper cmd0) arg
 
 def greet (s : S) : S :=
   replyB s 220 noEnh [s.cfg.domain ++ (if s.cfg.lmtp then " LMTP Service Ready".b else " ESMTP Service Ready".b)]
